@@ -58,6 +58,11 @@ pub enum SwOp {
     /// end the idx-th live owned guard (index modulo the number alive)
     EndOwned { idx: u8, end: End },
     Clear,
+    /// a borrowed guard that is alive ACROSS the end of an owned guard: start it, advance d1,
+    /// end the idx-th live owned guard with `inner`, advance d2, end the borrowed guard with `end`
+    BorrowedAround { d1: u64, idx: u8, inner: End, d2: u64, end: End },
+    /// end the idx-th live owned guard on ANOTHER thread (the documented use of owned guards)
+    EndOwnedOnThread { idx: u8, end: End },
 }
 
 #[derive(Clone, Copy, Debug, PartialEq, Serialize, Deserialize)]
@@ -79,12 +84,20 @@ pub fn run_stopwatch(ops: &[SwOp], clock_kind: ClockKind, via_thread_local: bool
         ClockKind::Own => own.advance(d),
         ClockKind::InTreeFake => fake.update_instant(d),
     };
+    // the clock has been running before the stopwatch exists
+    advance(Duration::from_nanos(1_234_567));
+    let decoy = ManualClock::new(UNIX_EPOCH + Duration::from_secs(99_000));
+    let use_default_ctor = ops.len() % 2 == 1;
     let mut sw = if via_thread_local {
         let _g = set_time_source(ts.clone());
-        Stopwatch::new()
+        if use_default_ctor { Stopwatch::default() } else { Stopwatch::new() }
     } else {
+        // an ambient decoy source must lose against the explicit one
+        let _g = set_time_source(TimeSource::custom(decoy.clone()));
         Stopwatch::new_from_timesource(ts.clone())
     };
+    // ... and the decoy keeps running (differently) while the stopwatch is used
+    decoy.advance(Duration::from_secs(17));
     // model
     let mut acc: Option<Duration> = None;
     let mut now = Duration::ZERO;
@@ -165,6 +178,94 @@ pub fn run_stopwatch(ops: &[SwOp], clock_kind: ClockKind, via_thread_local: bool
                 sw.clear();
                 acc = None;
             }
+            SwOp::BorrowedAround { d1, idx, inner, d2, end } => {
+                let (d1, d2) = (Duration::from_nanos(d1), Duration::from_nanos(d2));
+                // take the owned guard out first: the borrowed guard holds `&mut sw`, the owned one
+                // is independent of that borrow
+                let owned = if live.is_empty() { None } else { Some(live.remove((idx as usize) % live.len())) };
+                let g = sw.start();
+                advance(d1);
+                now += d1;
+                let mut owned_span = None;
+                if let Some((og, started)) = owned {
+                    let span = now - started;
+                    match inner {
+                        End::Drop => drop(og),
+                        End::Stop => {
+                            let r = og.stop();
+                            vensure!(
+                                r == span,
+                                "stopwatch:stop-returns-wrong-span",
+                                "op {i}: owned stop() inside a live borrowed guard returned {r:?}, measured {span:?}"
+                            );
+                        }
+                        End::Overwrite => og.overwrite(),
+                        End::Discard => og.discard(),
+                    }
+                    owned_span = Some(span);
+                    classes.push("owned-guard-ended-while-borrowed-guard-alive");
+                }
+                advance(d2);
+                now += d2;
+                match end {
+                    End::Drop => drop(g),
+                    End::Stop => {
+                        let r = g.stop();
+                        vensure!(
+                            r == d1 + d2,
+                            "stopwatch:stop-returns-wrong-span",
+                            "op {i}: borrowed stop() returned {r:?}, the guard measured {:?}",
+                            d1 + d2
+                        );
+                    }
+                    End::Overwrite => g.overwrite(),
+                    End::Discard => g.discard(),
+                }
+                // effects in the order the guards ENDED
+                if let Some(span) = owned_span {
+                    apply(&mut acc, span, inner);
+                }
+                apply(&mut acc, d1 + d2, end);
+                if had_owned {
+                    borrowed_after_owned = true;
+                }
+            }
+            SwOp::EndOwnedOnThread { idx, end } => {
+                if !live.is_empty() {
+                    let k = (idx as usize) % live.len();
+                    let (g, started) = live.remove(k);
+                    let span = now - started;
+                    let r = std::thread::scope(|s| {
+                        s.spawn(move || match end {
+                            End::Drop => {
+                                drop(g);
+                                None
+                            }
+                            End::Stop => Some(g.stop()),
+                            End::Overwrite => {
+                                g.overwrite();
+                                None
+                            }
+                            End::Discard => {
+                                g.discard();
+                                None
+                            }
+                        })
+                        .join()
+                    });
+                    match r {
+                        Ok(Some(r)) => vensure!(
+                            r == span,
+                            "stopwatch:stop-returns-wrong-span",
+                            "op {i}: owned stop() on another thread returned {r:?}, the guard measured {span:?}"
+                        ),
+                        Ok(None) => {}
+                        Err(_) => vfail!("panic:stopwatch-guard-on-other-thread", "ending an owned guard on another thread panicked: {:?}", take_last_panic()),
+                    }
+                    apply(&mut acc, span, end);
+                    classes.push("owned-guard-ended-on-another-thread");
+                }
+            }
         }
         if matches!(op, SwOp::Clear | SwOp::Borrowed { end: End::Overwrite, .. } | SwOp::EndOwned { end: End::Overwrite, .. })
             && !live.is_empty()
@@ -227,6 +328,8 @@ fn arb_swop() -> impl Strategy<Value = SwOp> {
         3 => arb_d().prop_map(SwOp::Advance),
         4 => (any::<u8>(), arb_end()).prop_map(|(idx, end)| SwOp::EndOwned { idx, end }),
         1 => Just(SwOp::Clear),
+        2 => (arb_d(), any::<u8>(), arb_end(), arb_d(), arb_end()).prop_map(|(d1, idx, inner, d2, end)| SwOp::BorrowedAround { d1, idx, inner, d2, end }),
+        1 => (any::<u8>(), arb_end()).prop_map(|(idx, end)| SwOp::EndOwnedOnThread { idx, end }),
     ]
 }
 
@@ -364,6 +467,15 @@ pub struct TimerCase {
 pub fn check_timer(case: &TimerCase) -> CaseResult {
     let clock = ManualClock::new(UNIX_EPOCH + Duration::from_secs(5));
     let ts = TimeSource::custom(clock.clone());
+    // the clock has been running before the timer exists: a timer measures from ITS creation
+    clock.advance(Duration::from_nanos(((case.ctor as u64) / 3) * 1_000_000_007));
+    // an ambient decoy source (an hour ahead, never advanced): an explicit source must win over it
+    let decoy = ManualClock::new(UNIX_EPOCH + Duration::from_secs(3605));
+    let _decoy_guard = if case.ctor % 3 == 0 && case.ctor >= 128 {
+        Some(set_time_source(TimeSource::custom(decoy.clone())))
+    } else {
+        None
+    };
     let mut timer = match case.ctor % 3 {
         0 => Timer::start_now_with_timesource(ts.clone()),
         1 => {
@@ -604,7 +716,7 @@ pub fn run(ctx: &mut Ctx) {
             if q { 20_000 } else { 600_000 },
         )
         .threads(ctx.tier.pick(8, 16))
-        .mandatory(&["several-live-owned", "clock-in-tree-fake", "clock-via-thread-local"]),
+        .mandatory(&["several-live-owned", "clock-in-tree-fake", "clock-via-thread-local", "owned-guard-ended-while-borrowed-guard-alive", "owned-guard-ended-on-another-thread"]),
         || {
             (
                 prop::collection::vec(arb_swop(), 0..200),
